@@ -104,7 +104,9 @@ def run_closed(ctx, case):
     tiny = 0 < Cq < 1e-6
     ctx.note(klass=c['kind'], desc=[c['kind'], rank, int(c['eps_exp']) if c['kind'] == 'near_separable' else 0, 'tiny' if tiny else ('zero' if Cq == 0 else 'pos')],
              nontrivial=(c['kind'] not in ('werner', 'isotropic') or tiny), labels=[c['kind'], f'rank={rank}', 'tiny concurrence' if tiny else ('C=0' if Cq == 0 else 'C>0')])
+    rho_before = rho.copy()
     C, F, G = closed_forms(ctx, rho, c['kind'])
+    ctx.close(rho, rho_before, 0, 'closed-form measures do not modify the state')
     # local unitary invariance
     r = ref.rng(c['prng'] + 1)
     U = np.kron(ref.rand_unitary(r, 2), ref.rand_unitary(r, 2))
